@@ -163,6 +163,7 @@ impl<'p, 'a> Evaluator<'a, 'p> {
         }
 
         if let Err(e) = this.run() {
+            this.restore_interrupted_asserts();
             this.restore_interrupted_thunks();
             return Err(e);
         }
@@ -192,6 +193,16 @@ impl<'p, 'a> Evaluator<'a, 'p> {
         for state in self.state_stack.drain(..) {
             if let State::GotThunk(thunk, pending) = state {
                 thunk.restore_pending(pending);
+            }
+        }
+    }
+
+    /// Marks the asserts of the objects that were being checked when an
+    /// error occurred as not checked, so they are checked again later.
+    fn restore_interrupted_asserts(&mut self) {
+        for state in self.state_stack.iter() {
+            if let State::ObjectAssertsGuard(object) = state {
+                object.asserts_checked.set(false);
             }
         }
     }
@@ -263,6 +274,7 @@ impl<'p, 'a> Evaluator<'a, 'p> {
                     let value = self.value_stack.last().unwrap();
                     thunk.set_done(value.clone());
                 }
+                State::ObjectAssertsGuard(_) => {}
                 State::DeepValue => {
                     #[inline]
                     fn might_need_deep(thunk: &ThunkData<'_>) -> bool {
@@ -1662,6 +1674,8 @@ impl<'p, 'a> Evaluator<'a, 'p> {
     fn check_object_asserts(&mut self, object: &GcView<ObjectData<'p>>) {
         if !object.asserts_checked.get() {
             object.asserts_checked.set(true);
+            self.state_stack
+                .push(State::ObjectAssertsGuard(object.clone()));
             let layer_iter = object
                 .super_layers
                 .iter()
